@@ -766,6 +766,9 @@ func (fx *FuncCtx) heapGet(st *State, name string, sort Sort) Term {
 	}
 	t := fx.declConst(name, sort)
 	st.heap[name] = t
+	// first use of this array on this path: it is the entry constant. Loops that may modify the
+	// array must know about it before their head state is built (see materialiseLoopHeap).
+	fx.heapDeclLog = append(fx.heapDeclLog, heapDecl{name, sort})
 	if strings.HasSuffix(name, ".rid") && sort == ArraySort(SInt, SInt) {
 		// slices held by heap objects at function entry were made by the caller: their regions have
 		// non-negative identifiers (regions allocated during this call have negative ones). This is a
